@@ -18,6 +18,17 @@ Proof.
   destruct l as [|x l]; [destruct a; reflexivity|]. cbn [skipn Nat.add]. apply IH.
 Qed.
 
+Lemma zlen_from_eq {A} (l : list A) : forall acc, zlen_from acc l = acc + zlen l.
+Proof.
+  induction l as [|x l IH]; intros acc; cbn [zlen_from].
+  - unfold zlen. cbn [length]. lia.
+  - rewrite IH, zlen_cons. lia.
+Qed.
+Lemma zlenT_eq {A} (l : list A) : zlenT l = zlen l.
+Proof. unfold zlenT. rewrite zlen_from_eq. lia. Qed.
+Lemma stream_len_eq c : stream_len c = zlen (c_img c).
+Proof. unfold stream_len. apply zlenT_eq. Qed.
+
 Lemma skipn_tail {A} n : forall (l : list A),
   match skipn n l with [] => [] | _ :: t => t end = skipn (S n) l.
 Proof.
@@ -161,6 +172,7 @@ Lemma struct_parse_at_readable Lgen L b img pos :
 Proof.
   intros -> Hr Hl Hn. unfold readable in Hr.
   apply andb_prop in Hr. destruct Hr as [Hr Hd]. apply andb_prop in Hr. destruct Hr as [H0 H1].
+  rewrite zlenT_eq in H1.
   unfold struct_parse_at. destruct (Z.leb_spec SEEK_LIMIT pos) as [H|_]; [lia|].
   destruct (decode_layout L (drop pos img)) as [[r t]|]; [|discriminate].
   destruct (adapt_nonstrict b r Hn) as [h Hh]. rewrite Hh. exists h. reflexivity.
